@@ -19,6 +19,10 @@
 // observed: one token per op: <res>,<pagesAfter>
 //
 //	res := p<ptr> | e:<class> | ok | v<byte> | skip
+//
+// input `cst`: observed = NilMarker Aligment HeaderSize NumOrders MinPossibleAllocations
+// MaxPossibleAllocations PageSize MaxWasmPages (hex) — NilMarker is `math.MaxUint32`, which the
+// constant translator (Gen.v) cannot read; the driver compares all of them with Model.v.
 //	class := poisoned shrunk toolarge hdrptr readhdr order occfree oos grow writehdr invalidptr
 //	         emptyhdr underflow other
 package allocator_test
@@ -164,6 +168,11 @@ func c28InLive(live []c28Live, a uint64) bool {
 }
 
 func c28Run(in string) string {
+	if in == "cst" { // the constants of the package, compared by the driver with those of Model.v
+		return fmt.Sprintf("%x %x %x %x %x %x %x %x", uint64(allocator.NilMarker), uint64(allocator.Aligment), uint64(allocator.HeaderSize),
+			uint64(allocator.NumOrders), uint64(allocator.MinPossibleAllocations), uint64(allocator.MaxPossibleAllocations),
+			uint64(allocator.PageSize), uint64(allocator.MaxWasmPages))
+	}
 	f := strings.Split(in, " ")
 	if len(f) < 4 || f[0] != "seq" {
 		return "err:badinput"
@@ -337,10 +346,24 @@ func c28Ops(r *vu.RNG, n int, allocBias int) []string {
 	return ops
 }
 
+// c28ExactFit: requests whose blocks (header included) tile [hb, hb+65536) exactly when hb = 0:
+// orders 12..4, 2 and 0; then the last block (it ends at the end of the page) is freed and
+// re-allocated, the first one too, and one more request needs a second page.
+func c28ExactFit(hb uint32) []string {
+	var ops []string
+	for o := 12; o >= 4; o-- {
+		ops = append(ops, "a,"+vu.X(uint64(8)<<uint(o)))
+	}
+	ops = append(ops, "a,20", "a,8") // ops 9 and 10
+	ops = append(ops, "w,a,0,5a", "f,a,0", "a,8", "r,d,0", "f,0,0", "a,8000", "r,a,0", "a,8", "a,1")
+	return ops
+}
+
 func c28Gen(r *vu.RNG, n int, emit func(string)) {
 	seq := func(hb uint32, pages, max uint32, ops []string) {
 		emit(fmt.Sprintf("seq %x %x %x %s", hb, pages, max, strings.Join(ops, " ")))
 	}
+	emit("cst")
 	// ---- fixed boundary cases
 	for k := 0; k <= 26; k++ { // every order boundary: size 2^k-1, 2^k, 2^k+1, then reuse after free
 		s := uint64(1) << uint(k)
@@ -359,9 +382,34 @@ func c28Gen(r *vu.RNG, n int, emit func(string)) {
 	seq(0, 0, 2, []string{"a,8", "a,10000", "a,10000"})
 	seq(0, 1, 65536, []string{"a,8", "S,0", "a,8", "a,8"})
 	seq(0, 2, 65536, []string{"a,8", "S,1", "f,0,0"})
+	// the size seen by the LAST call counts (Deallocate records it too): grown by the guest, seen by a
+	// free resp. an allocation, then a smaller memory object
+	seq(0, 1, 65536, []string{"a,8", "g,1", "f,0,0", "S,1", "a,8"})
+	seq(0, 1, 65536, []string{"a,8", "a,8", "g,2", "f,0,0", "S,2", "f,1,0", "a,8"})
+	seq(0, 1, 65536, []string{"a,8", "g,1", "a,8", "S,1", "f,0,0"})
+	// error branches that need a forged header (the guest breaks its discipline: the run is void for
+	// `check`, the model must still agree and poisoning must still hold):
+	// a forged order-12 block in the second half of a one-page memory (enough bytes are allocated for
+	// the free to be accepted) -> the next order-12 request finds "invalid header pointer detected"
+	seq(0, 1, 1, []string{"a,8000", "a,c8", "w,1,8,c", "w,1,c,1", "f,1,10", "a,8000", "a,8"})
+	// a freed forged block whose header the guest turns back into "occupied" -> "free list points to a occupied header"
+	seq(0, 1, 16, []string{"a,c8", "w,0,8,3", "w,0,c,1", "f,0,10", "w,0,8,3", "w,0,9,0", "w,0,a,0", "w,0,b,0", "w,0,c,1", "a,40", "a,8"})
+	// ... or into an occupied header with an order >= 23 -> "invalid order"
+	seq(0, 1, 16, []string{"a,c8", "w,0,8,3", "w,0,c,1", "f,0,10", "w,0,c,1", "a,40", "a,8"})
+	// a forged block bigger than everything allocated -> "underflow of the current allocated bytes count"
+	seq(0, 1, 16, []string{"a,14", "w,0,8,5", "w,0,c,1", "f,0,10", "a,8", "r,0,0"})
+	// blocks that tile one page exactly: the last one ends at the end of the memory (no grow needed,
+	// the free-list bound check `>` at its boundary), then reuse, then one more byte needs a grow
+	for _, max := range []uint32{1, 2, 65536} {
+		seq(0, 1, max, c28ExactFit(0))
+	}
+	// a memory object that would allow more than 65536 pages: the allocator itself must stop at 4 GiB
+	seq(2621440000, 40000, 131072, []string{"a,8", "a,2000000", "f,0,0", "a,8"})
+	seq(0xfffefff0, 65535, 0xffffffff, []string{"a,8", "a,fff0", "a,8", "a,8"})
+	seq(0x80000000, 32768, 65537, []string{"a,8", "a,10", "g,1"})
 
 	for i := 0; i < n; i++ {
-		mode := r.Intn(20)
+		mode := r.Intn(24)
 		switch {
 		case mode < 12: // ordinary mixed sequences
 			pages := uint32(r.Intn(4))
@@ -423,11 +471,71 @@ func c28Gen(r *vu.RNG, n int, emit func(string)) {
 		case mode < 19: // shrinking memory objects
 			ops := c28Ops(r, 10+r.Intn(10), 40)
 			ops[len(ops)/2] = "S," + vu.X(uint64(r.Intn(3)))
-			seq(c28HeapBase(r), uint32(1+r.Intn(3)), 65536, ops)
-		default: // large heap bases and page counts
+			pages := uint32(1 + r.Intn(3))
+			if r.Chance(1, 2) { // grown by the guest first, then swapped back to at least the initial size
+				ops[len(ops)/4] = "g," + vu.X(uint64(1+r.Intn(2)))
+				ops[len(ops)/2] = "S," + vu.X(uint64(pages)+uint64(r.Intn(2)))
+			}
+			seq(c28HeapBase(r), pages, 65536, ops)
+		case mode < 20: // large heap bases and page counts
 			hb := uint32(r.U64())
 			pages := uint32(r.Intn(65537))
 			seq(hb, pages, 65536, c28Ops(r, 10+r.Intn(20), 40))
+		case mode < 21: // forged headers with arbitrary orders, then requests of that order (hdrptr / occfree / order / underflow)
+			o := r.Intn(26)
+			sz := uint64(16 + r.Intn(240))
+			ops := []string{"a," + vu.X(sz), fmt.Sprintf("w,0,8,%x", o), "w,0,c,1", "f,0,10"}
+			if r.Chance(1, 2) { // a big block first: the forged free is accepted, the forged block overhangs the memory
+				o = 10 + r.Intn(4)
+				ops = []string{"a," + vu.X(uint64(8)<<uint(o)), "a," + vu.X(sz), fmt.Sprintf("w,1,8,%x", o), "w,1,c,1", "f,1,10"}
+			}
+			switch r.Intn(3) {
+			case 0: // the guest re-forges the freed header
+				ops = append(ops, fmt.Sprintf("w,0,8,%x", r.Intn(24)), "w,0,9,0", "w,0,a,0", "w,0,b,0", "w,0,c,1")
+			case 1:
+				ops = append(ops, "w,0,c,1")
+			}
+			if o <= 25 {
+				ops = append(ops, "a,"+vu.X(uint64(8)<<uint(o%23)))
+			}
+			ops = append(ops, c28Ops(r, 3+r.Intn(5), 50)...)
+			seq(uint32(r.Intn(3))*8, uint32(1+r.Intn(2)), []uint32{1, 2, 16, 65536}[r.Intn(4)], ops)
+		case mode < 22: // exact tiling of the first page(s), reuse of the block that ends at the end of memory
+			hb := uint32(r.Intn(4)) * 8
+			ops := c28ExactFit(hb)
+			ops = append(ops, c28Ops(r, 5+r.Intn(10), 40)...)
+			seq(hb, 1, []uint32{1, 2, 3, 65536}[r.Intn(4)], ops)
+		default: // a memory object whose own maximum is above 65536 pages: only the allocator's arithmetic stops at 4 GiB
+			pages := []uint32{32768, 32769, 40000, 50000, 65535, 65536}[r.Intn(6)]
+			max := []uint32{65537, 131072, 0xffffffff}[r.Intn(3)]
+			hb := uint32(uint64(pages)*c28Page - uint64(r.Intn(5))*8)
+			if pages == 65536 || r.Chance(1, 4) {
+				hb = uint32(uint64(pages)*c28Page - uint64(1+r.Intn(40))*33554440)
+			}
+			var ops []string
+			for k := 0; k < 6+r.Intn(10); k++ {
+				switch r.Intn(8) {
+				case 0:
+					ops = append(ops, "a,2000000")
+				case 1:
+					ops = append(ops, "a,"+vu.X(uint64(1)<<uint(10+r.Intn(15))))
+				case 2:
+					if len(ops) > 0 {
+						ops = append(ops, fmt.Sprintf("f,%x,0", r.Intn(len(ops))))
+					} else {
+						ops = append(ops, "a,8")
+					}
+				case 3:
+					if r.Chance(1, 4) {
+						ops = append(ops, "g,"+vu.X(uint64(r.Intn(3))))
+					} else {
+						ops = append(ops, "a,"+vu.X(uint64(c28Size(r))))
+					}
+				default:
+					ops = append(ops, "a,"+vu.X(uint64(r.Intn(70000))))
+				}
+			}
+			seq(hb, pages, max, ops)
 		}
 	}
 }
